@@ -586,11 +586,16 @@ Definition begin_message : M :=
 Definition send_message_frame : M :=
   ifS (in_state OPEN)
       (bindS (fun s => match sst s with
-                       | SGround => say (Raised ExException)
+                       | SGround => ret   (* API misuse (raises Exception, or AttributeError before the first
+                                             beginMessage): not offered by the correspondence driver *)
                        | _ => say WHdr ;; say (WPayload 2) ;; upd (set_sst SInside)
                        end)) ret.
 Definition end_message : M :=
-  ifS (in_state OPEN) (say WData ;; upd (set_sst SGround)) ret.
+  ifS (in_state OPEN)
+      (bindS (fun s => match sst s with
+                       | SGround => ret   (* API misuse, not offered by the driver (see send_message_frame) *)
+                       | _ => say WData ;; upd (set_sst SGround)
+                       end)) ret.
 
 Definition frames_flow (s : cstate) : bool :=     (* consumeData processes frames in OPEN and CLOSING only *)
   negb (gone s) && (wstate_eqb (st s) OPEN || wstate_eqb (st s) CLOSING).
@@ -633,7 +638,7 @@ Definition handle (c : cfg) (e : event) : M :=
   | EPeerData => ifS msg_start (data_frame_end c true) ret
   | EPeerFrag cont fin =>
     ifS (fun s => frames_ready s && Bool.eqb cont (inMsg s)) (data_frame_end c fin) ret
-  | EPeerHead => ifS msg_start (upd (set_rxPartial true)) ret
+  | EPeerHead => ifS msg_start (upd (fun s => set_inMsg true (set_rxPartial true s))) ret     (* onFrameBegin: inside_message = True *)
   | EPeerTail => ifS (fun s => frames_flow s && rxPartial s) (upd (set_rxPartial false) ;; data_frame_end c true) ret
   | EPeerPing => ifS frames_ready (say CbPing ;; send_pong) ret
   | EPeerPong m => ifS frames_ready (on_pong c m) ret
